@@ -222,11 +222,26 @@ def bounded(tier, seed):
             if not ok:
                 violations.append(dict(key='tnet_machine %r chunks=%r' % (v, [len(c) for c in chunks]), observed=obs[:300],
                                        required='payload %r, stops after %d bytes' % (v, len(enc))))
+    # (c) the incremental receive loop tnet_from (newline separators ignored between messages only)
+    msgs = [b'abc', b'x\ny', b'\nlead', 12, None, u'\xe9', b'', b'tail\n']
+    stream = b''.join(tnetstrings.dump(m) + b'\n' for m in msgs)
+    cuts = list(range(1, len(stream)))
+    if tier == 'quick':
+        cuts = rng.sample(cuts, 14)
+    for k in [None] + cuts:
+        chunks = [stream] if k is None else [stream[:k], stream[k:]]
+        ev += 1
+        distinct.add(('from', k))
+        got = tnet_from_stream(chunks)
+        want = list(msgs)
+        norm = lambda xs: [bytes(x) if isinstance(x, (bytes, bytearray)) else x for x in xs]
+        if norm(got) != norm(want) and len(violations) < 8:
+            violations.append(dict(key='tnet_from split at %r' % (k,), observed=repr(got)[:300], required=repr(want)[:300]))
     return dict(evaluations=ev, distinct_nontrivial=len(distinct),
                 rule='(a) seeded values (ints incl. > 64 bit, bools, None, bytes that look like prefixes/colons/type tags, multi-byte text, floats, nested lists and '
                      'string-keyed dicts to depth 3) x following data: parse(dump(v) + rest) == (v, rest) with equal types; (b) the real tnet_machine fed like '
                      'tnet_from for the types it supports, every two-way split and byte-at-a-time, followed by further data: same payload, terminal, '
-                     'source.sent == len(dump(v)); distinct = distinct values / (value, chunking)',
+                     'source.sent == len(dump(v)); (c) the real tnet_from loop on a socket pair: newline separated messages (payloads containing newlines at every position) in one chunk and two-way splits: the same payloads; distinct = distinct values / (value, chunking)',
                 exhaustive=False, samples=samples, violations=violations[:20], seed=seed)
 
 
@@ -246,3 +261,35 @@ def replay_tnet(model, obligation):
                 return dict(confirmed=True, function='cpppo.server.tnetstrings.dump/parse', input=repr((v, rest)), observed=obs[:300],
                             required='parse(dump(v) + rest) == (v, rest); length prefix == payload length')
     return dict(confirmed=False)
+
+
+def tnet_from_stream(chunks, gap=0.01):
+    """the real tnet.tnet_from receive loop on a socket pair fed the given chunks; returns the yielded payloads"""
+    import socket
+    import threading
+    import time
+    import cpppo
+    from cpppo.server import tnet
+    a, b = socket.socketpair()
+    out = []
+
+    def feed():
+        for c in chunks:
+            a.sendall(c)
+            time.sleep(gap)
+        a.shutdown(socket.SHUT_WR)
+    t = threading.Thread(target=feed, daemon=True)
+    t.start()
+    try:
+        for v in tnet.tnet_from(b, ('pair', 1), timeout=1.0, latency=0.05, ignore=b'\n'):
+            if v is None and not out and not t.is_alive():
+                break
+            out.append(v)
+            if len(out) > 50:
+                break
+    except Exception as e:
+        out.append('raised %s' % type(e).__name__)
+    t.join(1.0)
+    a.close()
+    b.close()
+    return out
